@@ -112,6 +112,15 @@ CLAIMS = {
          "<= 3 (4) with adversarial call sequences on the real crate, with the probe and with the closure idiom, judges the implementation's "
          "trace with the grammar predicate and compares it with the model's execution of the same tree. Scheduler-using operators are not "
          "nodes of these trees (their traces are judged under C02 / C07-C09).", "DESIGN.md section 5 C01"),
+ "C11": ("Theorems (share / publish built on the subject machine of C06, upstream a counted subscription and a tap): "
+         "C11_source_subscribed_at_most_once (any history, any number of subscribers, hot or cold source), C11_nothing_before_connection "
+         "(publish: nothing is subscribed, driven or delivered before connect(); share: before the first subscriber), C11_multicast (an "
+         "emission reaches exactly the subscribers present, in joining order), C11_released_after_last_leaver (for the machine that lets go of "
+         "its source when the last subscriber leaves, nothing flows afterwards whatever happens) and C11_still_driven_refuted: the code as it "
+         "is does not let go (KNOWN FINDING C11-still-driven). Each run executes all histories <= 5 (thorough 6) of subscribe / unsubscribe / "
+         "source calls / connect / is_closed for share and publish over a hot source, all histories <= 4 over six cold scripts and random longer "
+         "ones with three subscribers, local and _threads forms, and compares every observation with the specification (ideal machine) and the "
+         "model (code as it is); the 1% of cases where they differ are the recorded finding.", "DESIGN.md section 5 C11"),
  "C13": ("Theorems: C13_no_shared_cell_in_pipeline_values (a table of every struct of /repo/src that implements Observable, with its field "
          "types, regenerated on every run: none but subjects / share / complete_status carries Rc, Arc, RefCell, Cell, Mutex or an atomic), "
          "C13_subscription_is_pure, C13_successive_subscriptions_agree, C13_nested_subscriptions_agree (with every operator's state created "
